@@ -8,7 +8,10 @@ use swc_ecma_visit::VisitMutWith;
 
 use crate::{
     transform::assign_add_transform::AssignOp::Assign,
-    visitor::{ident_provider::IdentKind, operation_transform_visitor::OperationTransformVisitor},
+    visitor::{
+        ident_provider::IdentKind, operation_transform_visitor::OperationTransformVisitor,
+        visitor_util::get_dd_paren_span,
+    },
 };
 
 use super::{binary_add_transform::BinaryAddTransform, transform_status::TransformResult};
@@ -48,7 +51,7 @@ impl AssignAddTransform {
                     Expr::Bin(BinExpr {
                         op: BinaryOp::Add, ..
                     }) => Box::new(Expr::Paren(ParenExpr {
-                        span: assign.right.span(),
+                        span: get_dd_paren_span(&assign.right.span()),
                         expr: assign.right.clone(),
                     })),
                     _ => assign.right.clone(),
@@ -77,7 +80,7 @@ impl AssignAddTransform {
                     } else {
                         hoisted.push(new_assign);
                         TransformResult::modified(Expr::Paren(ParenExpr {
-                            span,
+                            span: get_dd_paren_span(&span),
                             expr: Box::new(Expr::Seq(SeqExpr {
                                 span,
                                 exprs: hoisted.into_iter().map(Box::new).collect(),
